@@ -417,7 +417,16 @@ func (a *Adv) AuthProbes(perTxn int) int {
 			}
 		}
 		// witness tampers (no control needed: the content is the honest one)
-		wt := rapid.IntRange(0, 6).Draw(t, "v1witness")
+		wt := rapid.IntRange(0, 7).Draw(t, "v1witness")
+		if wt != 7 && rapid.IntRange(0, 3).Draw(t, "v1witnessMultisig") == 0 {
+			for i := range orig.Signatures {
+				for j := i + 1; j < len(orig.Signatures); j++ {
+					if orig.Signatures[i].ParentID == orig.Signatures[j].ParentID {
+						wt = 7 // a parent that needs several signatures: prefer the tamper that only applies to those
+					}
+				}
+			}
+		}
 		blk := CloneBlock(a.Honest)
 		x := &blk.Transactions[ti]
 		label := ""
@@ -446,6 +455,23 @@ func (a *Adv) AuthProbes(perTxn int) int {
 			if !v1UsesUnknownAlgo(orig) && x.Signatures[0].CoveredFields.WholeTransaction {
 				x.Signatures[0].CoveredFields = FullCoverage(*x)
 				label = "v1/witness/change-covered-fields"
+			}
+		case 7: // of two signatures for one parent, the second is replaced by a second, valid signature of the first one's key
+		twice:
+			for i := range x.Signatures {
+				for j := i + 1; j < len(x.Signatures); j++ {
+					if x.Signatures[i].ParentID != x.Signatures[j].ParentID || len(x.Signatures[i].Signature) != 64 || len(x.Signatures[j].Signature) != 64 {
+						continue
+					}
+					x.Signatures[j].PublicKeyIndex = x.Signatures[i].PublicKeyIndex
+					if ResignV1Slot(a.CS, x, j) {
+						label = "v1/witness/one-key-signs-twice"
+						if x.Signatures[i].PublicKeyIndex >= 64 {
+							label += "-key-index>=64"
+						}
+					}
+					break twice
+				}
 			}
 		case 6: // cut an ed25519 signature short (emptied, half, one byte missing): any position, the last one preferred
 			if !v1UsesUnknownAlgo(orig) {
